@@ -25,6 +25,37 @@ def _meta():
     return m
 
 
+def history_cache():
+    """self._cache after an ARBITRARY call history (the property quantifies over histories): any key may or may not be present.  A present
+    'orbit' entry is a KeplerOrbit template whose elements are arbitrary (get_orbit overwrites every one of them); any other present key holds an
+    arbitrary, unknown value.  Entries written during the call are known."""
+    memo_has, memo_val = {}, {}
+
+    def mk(known):
+        o = Obj("dict-after-any-history", {"known": known})
+
+        def contains(item, o=o):
+            if item in o.fields["known"].vals:
+                return True
+            if item not in memo_has:
+                memo_has[item] = z3.Bool(f"cache_has_{item}")
+            return memo_has[item]
+
+        def getitem(ex, path, recv, key, node):
+            kn = recv.fields["known"]
+            if key in kn.vals:
+                return kn.vals[key]
+            if key not in memo_val:
+                memo_val[key] = Obj("KeplerOrbit", {"elements": Obj("KeplerElements", {})}) if key == "orbit" else Opaque(f"stale-cache-entry:{key}")
+            return memo_val[key]
+
+        def setitem(ex, path, recv, key, value, node):
+            return mk(recv.fields["known"].set(key, value))
+        o.fields.update({"__contains__": contains, "__getitem__": getitem, "__setitem__": setitem})
+        return o
+    return mk(PyDict())
+
+
 def samples_self(with_linear=True, extra_cols=()):
     def build(ex, path, name):
         Pu = A.sym_unit("P_unit", TIME)
@@ -43,7 +74,7 @@ def samples_self(with_linear=True, extra_cols=()):
         tbl = T.samples_table(cols, n, _meta())
         k = z3.Int(fresh_name("k"))
         path.assume(q_forall([k], b_and(0 <= k, k < n), tbl.fields["cols"].vals["P"].fields["value"].at(k) != 0))
-        o = Obj("JokerSamples", {"tbl": tbl, "_cache": PyDict(), "__qualclass__": "thejoker.samples.JokerSamples", "cls_name": "JokerSamples"},
+        o = Obj("JokerSamples", {"tbl": tbl, "_cache": history_cache(), "__qualclass__": "thejoker.samples.JokerSamples", "cls_name": "JokerSamples"},
                 ident="self")
         return o
     return build
@@ -139,7 +170,44 @@ get_time_with_phase = Contract(
     ensures={"mean-anomaly-at-the-returned-time-equals-the-phase":
              "all(2 * pi_() * (result.mjd[i] - self.tbl.meta['t_ref'].mjd) == (phrad() + M0rad(i)) * Pday(i) for i in range(len(self.tbl['P'].value)))"})
 
-CONTRACTS = [wrap_K, get_time_with_phase]
+# ---- pack: column j of the array holds parameter names[j], converted to the unit reported for it, and the reported units are in column order ------
+def units_param(keys):
+    def build(ex, path, name):
+        d = PyDict()
+        for k in keys:
+            dim = {"P": TIME, "omega": ANGLE, "M0": ANGLE, "s": SPEED, "K": SPEED, "v0": SPEED, "e": (0, 0, 0)}[k]
+            u_ = A.sym_unit(f"want_{k}_unit", dim)
+            path.assume(*u_.sym_facts)
+            d = d.set(k, u_)
+        return d
+    return build
+
+
+def _pack_ens(names):
+    ens = {"reported-units-are-in-column-order": "list(result[1].keys()) == " + repr(list(names)),
+           "one-row-per-sample-one-column-per-name": f"result[0].shape[0] == len(self.tbl['P'].value) and result[0].shape[1] == {len(names)}"}
+    for j, nm in enumerate(names):
+        ens[f"column-{j}-holds-{nm}-in-the-unit-reported-for-it"] = (
+            f"all(result[0][i, {j}] * result[1]['{nm}'].scale == self.tbl['{nm}'].value[i] * self.tbl['{nm}'].unit.scale "
+            f"for i in range(len(self.tbl['P'].value)))")
+    return ens
+
+
+NL = ["P", "e", "omega", "M0", "s"]
+ALLP = NL + ["K", "v0"]
+pack = []
+for _uk, _ukeys in (("units=None", None), ("units={omega,M0}", ("omega", "M0")), ("units={s,P}", ("s", "P")), ("units={K,e}", ("K", "e"))):
+    for _nl in (True, False):
+        _names = NL if _nl else ALLP
+        _ens = _pack_ens(_names)
+        if _ukeys:
+            _ens["requested-units-honoured"] = " and ".join(f"result[1]['{k}'] is units['{k}']" for k in _ukeys if k in _names) or "True"
+        pack.append(Contract(S + "pack", PROPERTY,
+                             params={"self": samples_self(), "units": ("none" if _ukeys is None else units_param(_ukeys)), "names": "none",
+                                     "nonlinear_only": "true" if _nl else "false"},
+                             cases=[{"_name": f"{_uk},nonlinear_only={_nl}"}], ensures=_ens))
+
+CONTRACTS = [wrap_K, get_time_with_phase] + pack
 CALLEES = {S + "t_ref": t_ref_prop, "JokerSamples.t_ref": t_ref_prop, S + "par_names": par_names_prop, "JokerSamples.par_names": par_names_prop,
            S + "__getitem__": getitem_callee, "JokerSamples.__getitem__": getitem_callee}
 LEMMAS = ["WrapK.lean"]
